@@ -93,6 +93,14 @@ fn main() {
             let calls: Vec<u8> = CALLS.with(|c| c.borrow().clone());
             for s in w.slots { std::mem::forget(s); }
             if so.res == "panic" { continue; }
+            // the uninjected run, on record: the model must agree with it before injected runs are compared with the model's panic points
+            {
+                writeln!(out, "# DRY state={} candidate={}", st, ci).unwrap();
+                let mut w = rebuild(cfg, universe, &prefix, &mut out);
+                do_step(&mut w, *slot, op, &mut out);
+                finish(&mut w, &mut out, false);
+                writeln!(out, "# INJ").unwrap();
+            }
             // which call indices to inject at: all when few, else the first ones, the last ones and a sample
             let idx: Vec<usize> = if calls.len() <= max_pts { (0..calls.len()).collect() } else {
                 let mut v: Vec<usize> = (0..max_pts / 2).collect();
